@@ -243,9 +243,12 @@ def first_case(t):
     return None
 
 
-def split_cases(vals, conds=(), limit=64):
+def split_cases(vals, conds=(), limit=64, _known=None, _sub=None):
     """[(path conditions, {local: case-free value})]: splits jointly on every case distinction occurring anywhere in
-    the values, so that each result is a plain (branch-free) term per tracked local"""
+    the values, so that each result is a plain (branch-free) term per tracked local; infeasible combinations (a scrutinee
+    constrained to an empty set) are dropped"""
+    known = dict(_known or {})
+    sub = dict(_sub or {})
     node = None
     for v in vals.values():
         node = first_case(v)
@@ -258,14 +261,19 @@ def split_cases(vals, conds=(), limit=64):
     out = []
     if node[0] == "ite":
         for truth in (True, False):
-            sub = {node[1]: sym.TRUE if truth else sym.FALSE}
-            v2 = {l: sym.rebuild(v, sub) for l, v in vals.items()}
-            out += split_cases(v2, conds + ((node[1], truth),), limit - 1)
+            s2 = dict(sub)
+            s2[node[1]] = sym.TRUE if truth else sym.FALSE
+            v2 = {l: sym.rebuild(v, s2, known) for l, v in vals.items()}
+            out += split_cases(v2, conds + ((node[1], truth),), limit - 1, known, s2)
     else:
         for rs, _x in node[3]:
-            known = {node[1]: rs}
-            v2 = {l: sym.rebuild(v, {}, known) for l, v in vals.items()}
-            out += split_cases(v2, conds + ((node[1], node[2], rs),), limit - 1)
+            r2 = sym.rs_inter(rs, known[node[1]]) if node[1] in known else rs
+            if not r2:
+                continue
+            k2 = dict(known)
+            k2[node[1]] = r2
+            v2 = {l: sym.rebuild(v, sub, k2) for l, v in vals.items()}
+            out += split_cases(v2, conds + ((node[1], node[2], r2),), limit - 1, k2, sub)
     return out
 
 
